@@ -54,6 +54,10 @@ NatLess(a, b) == LET x == DecToBits(a)  y == DecToBits(b) IN
                  \/ Len(x) < Len(y)
                  \/ Len(x) = Len(y) /\ \E i \in 1..Len(x) : x[i] < y[i] /\ \A j \in 1..(i - 1) : x[j] = y[j]
 
+\* keys of the send runs: "seed" (64 hex digits; public key by RFC 8032 key generation) or "seed:pub" (a private key value
+\* seed || pub with the given public half - the wallet's data and address hold whatever key.Public() is)
+KeyPub(k) == IF StrLen(k) = 64 THEN BytesToBits(EdPubFromSeed(HexToBytes(k))) ELSE BytesToBits(HexToBytes(SubStr(k, 66, 129)))
+
 \* --------------------------------------------------------------- versions
 VersionSeq == <<"V1R1", "V1R2", "V1R3", "V2R1", "V2R2", "V3R1", "V3R2", "V4R1", "V4R2", "V5Beta", "V5R1", "HighLoadV2R2">>
 Versions   == {VersionSeq[i] : i \in 1..Len(VersionSeq)}
